@@ -160,8 +160,9 @@ theorem finState_clean (s : St) (j : Nat) : (finState s j).clean = finState s.cl
 /-- the state in which `execute` calls `update_next` -/
 def preExec (s : St) (j : Nat) (due : Int) : St :=
   let b := s.job j
-  let s := s.emit (.exec j s.now due)
-  let s := s.setJob j { b with execs := b.execs + 1 }
+  let t := s.now
+  let s := s.emit (.exec j t due)
+  let s := s.setJob j { b with execs := b.execs + 1, lastRun := some t }
   if b.execFail.contains b.execs then s.emit (.exc "CallableError") else s
 
 /-- what `execute` does with the result of `update_next` -/
@@ -180,7 +181,7 @@ theorem err_name_not_inj (e : Err) : isInj (.exc e.name) = false := by
 
 theorem preExec_clean (s : St) (j : Nat) (due : Int) : (preExec s j due).clean = preExec s.clean j due := by
   have hb : preExec s.clean j due =
-      (s.clean.emit (.exec j s.now due)).setJob j { s.clean.job j with execs := (s.job j).execs + 1 } := by
+      (s.clean.emit (.exec j s.now due)).setJob j { s.clean.job j with execs := (s.job j).execs + 1, lastRun := some s.now } := by
     unfold preExec
     simp [clean_job]
   rw [hb]
